@@ -55,9 +55,11 @@ prop("C15",
 prop("C01",
      title="RDB parsing delivers every key exactly, whatever its encoding",
      quick=[{"re": "^TestC01$", "checks": 4000},
-            {"re": "^TestC01Big$", "checks": 7}],
+            {"re": "^TestC01Big$", "checks": 7},
+            {"re": "^TestC01BigOther$", "checks": 4}],
      thorough=[{"re": "^TestC01$", "checks": 400000, "shards": 8, "timeout": 1500},
                {"re": "^TestC01Big$", "checks": 240, "shards": 6, "timeout": 1500},
+               {"re": "^TestC01BigOther$", "checks": 120, "shards": 3, "timeout": 1500},
                {"re": "^$", "fuzz": "^FuzzC01$", "fuzztime": "120s", "checks": 1, "exclusive": True, "timeout": 500}],
      rule="RDB files written by the harness' own RDB writer from a drawn logical keyspace: 0-4 databases (numbers up to 70000, "
           "repeated selectors), 0-8 keys each, every physical encoding (raw/int8/int16/int32/LZF strings and keys; list, set, "
@@ -182,9 +184,11 @@ prop("C13",
 prop("C02",
      title="Restoring an entry leaves the target key equal to the source key",
      quick=[{"re": "^TestC02$", "checks": 5000},
-            {"re": "^TestC02Chunked$", "checks": 6}],
+            {"re": "^TestC02Chunked$", "checks": 6},
+            {"re": "^TestC02Lua$", "checks": 200}],
      thorough=[{"re": "^TestC02$", "checks": 400000, "shards": 10, "timeout": 1700},
-               {"re": "^TestC02Chunked$", "checks": 200, "shards": 5, "timeout": 1700}],
+               {"re": "^TestC02Chunked$", "checks": 200, "shards": 5, "timeout": 1700},
+               {"re": "^TestC02Lua$", "checks": 20000, "timeout": 1700}],
      rule="entry x configuration x target state. Entry: every type/encoding of the RDB generator (incl. stream, quicklist, zipmap, ziplist, intset, "
           "LZF), collection sizes at 1,2,3,63-65,99-101,199-201,300, expiry none/past/future against the shifted clock, idle/freq hints, keys with "
           "hash tags. Configuration (sanitiser post-conditions): target.version fetched (full string, big_key_threshold in {1,len-1,len,len+1,500MB}) "
@@ -205,15 +209,20 @@ prop("C02",
 
 prop("C14",
      title="Resume picks its own source's newest checkpoint and reads what the sender wrote",
-     quick=[{"re": "^TestC14$", "checks": 2500}],
-     thorough=[{"re": "^TestC14$", "checks": 300000, "shards": 10, "timeout": 1700}],
+     timing=True,
+     quick=[{"re": "^TestC14$", "checks": 2500},
+            {"re": "^TestC14EndToEnd$", "checks": 2, "shards": 2, "timeout": 600}],
+     thorough=[{"re": "^TestC14$", "checks": 300000, "shards": 10, "timeout": 1700},
+               {"re": "^TestC14EndToEnd$", "checks": 36, "shards": 6, "timeout": 1700}],
      rule="histories of 0-10 checkpoint writes into a model target (loopback TCP): sources drawn from a set with prefix-related addresses "
           "(h:637 / h:6379 / h:63790, 10.0.0.1:6379 / 10.0.0.1:63791 / 10.0.0.11:6379), dbs 0-15, strictly increasing offsets per source (some "
           "> 2^33), run id + version with the first write into a db (as the sender does) or rewritten later, version in {1,0,2,absent}, partially "
           "written (no run id) and cleared run ids, user data in further dbs, plain or suffixed checkpoint key name. Oracle: reference resume rule "
           "from the statement over the final state (greatest own offset; its run id and db, or '?'/-1 when it lacks a run id; -1 when none; refused "
           "when its version < required) compared with checkpoint.LoadCheckpoint; afterwards own run-id/offset fields are gone from every other db "
-          "and every other field/key is byte-identical. Sender/loader agreement on real sender output is checked in C04. Non-trivial: prefix-related "
+          "and every other field/key is byte-identical. Sender/loader agreement on real sender output is checked in C04 and, here, by TestC14EndToEnd: "
+          "complete DbSyncer.Sync() runs (fake source + model target) that start from a checkpoint left by an earlier run and are answered with +CONTINUE "
+          "or with a FULLRESYNC under a new run id; afterwards checkpoint.LoadCheckpoint must return the run id the sender ran under and the last offset it stored. Non-trivial: prefix-related "
           "sources present and own checkpoints in >= 2 dbs. Distinct = hash of the history.",
      technique="property-based testing (rapid): generated write histories against a reference resume rule (model oracle) and a frame condition over the target keyspace",
      level_text="Generated histories over the state space the statement names, with address sets built to contain prefix relations; the loader runs against a model Redis over TCP exactly as in production.",
@@ -364,9 +373,11 @@ prop("C16",
      title="Scan-based migration (rump) copies every scanned key faithfully",
      timing=True,
      quick=[{"re": "^TestC16$", "checks": 6, "shards": 3, "timeout": 600},
-            {"re": "^TestC16KeyFile$", "checks": 4, "timeout": 600}],
+            {"re": "^TestC16KeyFile$", "checks": 4, "timeout": 600},
+            {"re": "^TestC16QoS$", "checks": 1, "timeout": 600}],
      thorough=[{"re": "^TestC16$", "checks": 600, "shards": 12, "timeout": 1700},
-               {"re": "^TestC16KeyFile$", "checks": 300, "shards": 3, "timeout": 1700}],
+               {"re": "^TestC16KeyFile$", "checks": 300, "shards": 3, "timeout": 1700},
+               {"re": "^TestC16QoS$", "checks": 60, "shards": 6, "timeout": 1700}],
      rule="one rapid case = one configuration and a batch of 8-20 executors run concurrently (QoS bucket and status ticker cost ~2 s per executor): model "
           "source keyspaces over 1-4 dbs (0..15), per db 1..2N keys (N = scan.key_number in {1,2,3,5,50}; counts N-1, N, N+1, 2N), values in every "
           "encoding with real DUMP payloads, PTTL none or positive, a SCAN script (any cursor sequence, empty pages, trailing empty page, page sizes "
@@ -375,7 +386,9 @@ prop("C16",
           "db, lines incl. multiples of the page size. Real dbRumperExecutor.exec with real redigo connections to model source and target. Oracle: the "
           "executor returns (12 s limit; an abort on any of its goroutines is reported as such); every key that passes the filters and did not vanish is in "
           "the same db (or target.db) with the source value and ttl == the PTTL the source reported (none stays none); vanished/filtered keys absent; "
-          "nothing else written. Non-trivial: >=2 dbs, an empty page and a vanished key. Distinct = hash of (configuration, script).",
+          "nothing else written. Some batches use qps 2-5 with a source that answers one SCAN late (the rate limiter really limits). Rate limiter alone "
+          "(utils.StartQoS, batches of 8-24 consumers): after any pattern of takes and idle periods a consumer that wants n tokens gets them within n/qps + 2.5 s. "
+          "Non-trivial: >=2 dbs, an empty page and a vanished key; a rate-limiter script with an idle period >= 1 s. Distinct = hash of (configuration, script).",
      technique="property-based testing (rapid) with scripted model source (SCAN pagination adversary, vanish events) and model target; model-based oracle over the target keyspace; batched instances",
      level_text="Generated keyspaces x paginations x fault points against the real three-goroutine pipeline; about a hundred executors per quick run.",
      level_note="Trusted: harness/mredis, the SCAN/DUMP/PTTL script hook. SCAN duplicates and keys re-created between DUMP and PTTL are outside the stated domain. Pre-existing keys only under rewrite (under none a busy key aborts the run, which is a report, not a copy).",
@@ -395,9 +408,10 @@ prop("C08",
           "REPLCONF ACK / PSYNC with the number of stream bytes it had sent by then. Oracle (timing-robust): ACK == 0 until the full phase is over; afterwards "
           "never ahead of start + bytes sent, never decreasing, and exact once the stream has been idle for > 2 ticks; reconnect PSYNC == <same run id> "
           "start + bytes sent before the drop + 1; the consumer of the pipe sees RDB || stream continue byte-exactly across the reconnect. (end to end) "
-          "batches of 4-8 complete DbSyncer.Sync() runs with resume on against fake source + model target: LoadCheckpoint, PSYNC, full sync of a small RDB, "
+          "batches of 4-8 complete DbSyncer.Sync() runs with resume on against fake source + model target, starting fresh (PSYNC ? -1), from a checkpoint left by an "
+          "earlier run that the source answers with +CONTINUE, or from one with an older run id that the source answers with FULLRESYNC under a new run id: LoadCheckpoint, PSYNC (first request checked), full sync of a small RDB, "
           "then 5-18 commands (RPUSH/SELECT/PING) spread over >= 2.6 s with an optional drop: target applies exactly the source's commands once, reconnect "
-          "offset exact, and every checkpoint offset stored in the target == start + end position of the last source command of its group (checked against "
+          "offset exact, and every checkpoint offset stored in the target == start (the resumed db announcement) or start + end position of the last source command of its group, under the run id that produced it (checked against "
           "the number of data commands applied when it was stored). Non-trivial: >=2 ACKs or a drop; every end-to-end run. Distinct = hash of the script.",
      technique="property-based testing (rapid) with generated traffic/fault timelines against a recording fake replication source; history-invariant oracles over the recorded ACK/PSYNC trace; batched instances",
      level_text="Generated wall-clock histories spanning several acknowledgement ticks with injected link drops; the oracles are inequalities/equalities over the source-side trace that hold for every scheduling. A few dozen histories per quick run (each costs 4-8 s of wall time), thousands in thorough.",
